@@ -71,6 +71,7 @@ func (s uSchema) col(name string) int {
 }
 
 type uDB struct {
+	scanKind int // how the non-key columns scan: 0 nullable BIGINT, 1 BIGINT NOT NULL, 2 BIGINT UNSIGNED NOT NULL
 	schema uSchema
 	rows   []uRow // committed state
 	logs   []uLog
@@ -429,8 +430,15 @@ func (s *uStmt) Query(args []driver.Value) (driver.Rows, error) {
 			cols = append(cols, c)
 		}
 		out := &uRows{cols: d.schema.cols}
-		for range d.schema.cols {
-			out.scan = append(out.scan, reflect.TypeOf(sql.NullInt64{}))
+		for k := range d.schema.cols {
+			switch {
+			case d.scanKind == 1 && !d.schema.isPK(k):
+				out.scan = append(out.scan, reflect.TypeOf(int64(0))) // BIGINT NOT NULL
+			case d.scanKind == 2 && !d.schema.isPK(k):
+				out.scan = append(out.scan, reflect.TypeOf(uint64(0))) // BIGINT UNSIGNED NOT NULL
+			default:
+				out.scan = append(out.scan, reflect.TypeOf(sql.NullInt64{}))
+			}
 		}
 		for _, r := range *rows {
 			if !r.present {
@@ -438,7 +446,17 @@ func (s *uStmt) Query(args []driver.Value) (driver.Rows, error) {
 			}
 			for t := 0; t+len(cols) <= len(args); t += len(cols) {
 				if s.matchPK(r, cols, args[t:t+len(cols)]) {
-					out.data = append(out.data, append([]driver.Value(nil), r.cells...))
+					row := append([]driver.Value(nil), r.cells...)
+					if d.scanKind == 2 {
+						// an unsigned column: the driver hands out uint64
+						for k := range row {
+							if v, ok := row[k].(int64); ok && !d.schema.isPK(k) {
+								vrt.Assume(v >= 0)
+								row[k] = uint64(v)
+							}
+						}
+					}
+					out.data = append(out.data, row)
 					break
 				}
 			}
